@@ -107,6 +107,10 @@ def run(ctx, scale=1):
         "select a1 between b2 and c3 from t4", "select a1 from t2 where x3 in (select y4 from u5) and z6 like 's7'",
         "insert into t1 (c2, c3) values (4, 's5'), (6, 's7')", "update t1 set c2 = 3, c4 = 's5' where c6 = 7",
         "create table t1 (c2 int not null default 3, c4 varchar(10) default 's5', primary key (c2))",
+        # comment markers inside literals, quoted names and line comments are content, not comments
+        "select a1 from t2 where p3 = '/*' and q4 = 31 and r5 = '*/'", "select '--', b2, '#', c3 from t4 where d5 = '/* x */' or e6 = 7",
+        "select a1 -- /* not a block\n , b2 /* real */ , c3 from t4", "select `a/*b`, c2, `d*/e` from t3", "select a1 # /* x\n , b2 from t3 /* y */ where c4 = 5",
+        "select 'a;b', c2, 'd;e' from t3; select f4 from g5", "select a1, '*/', b2, '/*', c3 from t4", "select \"x/*y\", b2, \"z*/w\" from t3",
     ]]
     # the same statements with comments between tokens (several per statement: an identifier must not get lost
     # between two comments either)
